@@ -18,6 +18,12 @@ fn data_bytes(w: u32, h: u32) -> usize {
 
 /// PageObs: dimensions, id, length, header, padding and what every pixel reads (through get_pixel).
 pub fn page_obs(p: &Page<'_>) -> Value {
+    // a panic of an accessor (id, as_bytes, width, height) on a page that exists is data as well: the page then has the
+    // empty projection, which no expected projection equals (seen with a rejected write that leaves the page without its buffer)
+    catch(|| page_obs_inner(p)).unwrap_or_else(|_| json!({"w": 0, "h": 0, "id": 0, "len": 0, "header": [], "padding": [], "px": [], "accessor_panicked": 1}))
+}
+
+fn page_obs_inner(p: &Page<'_>) -> Value {
     let b = p.as_bytes();
     let (w, h) = (p.width(), p.height());
     // a panic of get_pixel on an in-bounds coordinate is data: that pixel reads 2
@@ -108,7 +114,7 @@ pub fn record_c06(a: &Args) -> usize {
     // tall and wide pages with the full projection
     sizes.extend_from_slice(&[(2, 2050), (1, 2049), (3, 300), (300, 3), (1, 257 * 8)]);
     // huge pages with the sparse projection
-    let huge: Vec<(u32, u32)> = if thorough { vec![(1, 16_777_217), (2, 1 << 20), (3, 70_000), (70_000, 9), (1, 1 << 24), (2, 16_777_217), (40_000, 110_000)] } else { vec![(1, 16_777_217), (2, 70_001), (40_000, 9), (70_000, 7)] };
+    let huge: Vec<(u32, u32)> = if thorough { vec![(1, 16_777_217), (2, 1 << 20), (3, 70_000), (70_000, 9), (1, 1 << 24), (2, 16_777_217), (40_000, 110_000), (16_777_219, 1), (1 << 20, 9), (1 << 17, 33)] } else { vec![(1, 16_777_217), (2, 70_001), (40_000, 9), (70_000, 7), (65_537, 1), (131_080, 8), (65_576, 17)] };
     for (w, h) in huge {
         out.balance();
         record_sparse(&mut out, &mut rng, w, h, if (w as u64) * (h as u64) > (1 << 31) { 8 } else if thorough { 60 } else { 24 });
@@ -263,6 +269,20 @@ fn record_sparse(out: &mut TraceOut, rng: &mut StdRng, w: u32, h: u32, ops: usiz
                 }
                 if y.checked_add(d).map(|r| r < h).unwrap_or(false) {
                     probes.push((x, y + d));
+                }
+            }
+            // the same row at aliasing distances along x (a column index kept in a narrower integer), and the column's residues
+            for d in [7u32, 8, 255, 256, 2048, 4096, 65535, 65536, 65537, 1 << 17, 1 << 20, 1 << 24] {
+                if x >= d {
+                    probes.push((x - d, y));
+                }
+                if x.checked_add(d).map(|c| c < w).unwrap_or(false) {
+                    probes.push((x + d, y));
+                }
+            }
+            for k in [8u32, 16, 24] {
+                if x >> k != 0 {
+                    probes.push((x & ((1 << k) - 1), y));
                 }
             }
             if x > 0 {
